@@ -189,7 +189,9 @@ def run(repo: Repo, rep: Report) -> None:
                             arm = norm(p.test.args[1])
                             break
                 lit_arm = arm == "Literal"
-                ok = wrapped or not (may_lit or lit_arm)
+                # an argument that the type checker knows to be exactly `str` (e.g. a piece of str(val).split(...)) is not a Literal either
+                plain_str = tf is not None and not tf.any and set(tf.items) == {"builtins.str"}
+                ok = wrapped or plain_str or not (may_lit or lit_arm)
                 rep.ob("C16.d-sax-characters-get-str", xm, q, c, ok,
                        "plain str / non-literal term" if ok else "a Literal is handed to characters(): Literal(0) / Literal(False) / Literal('') are falsy and written as empty content", node=c)
 
@@ -301,3 +303,36 @@ def more_rules2(repo: Repo, rep: Report) -> None:
 
 
 EXEMPT: dict = {}
+
+
+_run_base = run
+
+
+def run(repo: Repo, rep: Report) -> None:  # noqa: F811
+    _run_base(repo, rep)
+    rep.rule("C16.j-carriage-return-as-character-reference",
+             "XML line-end normalisation (XML 1.0 2.11) turns a raw CR, and CR LF, in element content into LF before the reader sees it; a writer of literal text therefore emits "
+             "CR as the character reference &#13;. The repository's XMLWriter.text does (escape(text, {'\\r': '&#13;'})); the SPARQL XML results writer, which uses "
+             "xml.sax's XMLGenerator.characters (no CR escaping), must do the same for literal content", floor=2)
+    xw = repo.mod("rdflib.plugins.serializers.xmlwriter")
+    tf = xw.func("XMLWriter.text")
+    ent = None
+    for st in xw.tree.body:
+        if isinstance(st, ast.Assign) and isinstance(st.value, ast.Dict):
+            for k, v in zip(st.value.keys, st.value.values):
+                if isinstance(k, ast.Constant) and k.value == "\r" and isinstance(v, ast.Constant) and v.value == "&#13;":
+                    ent = norm(st.targets[0])
+    ok = ent is not None and any(isinstance(c, ast.Call) and norm(c.func) == "escape" and len(c.args) == 2 and norm(c.args[1]) == ent for c in own_nodes(tf))
+    rep.ob("C16.j-carriage-return-as-character-reference", xw, "XMLWriter.text", "escape(text, %s) with '\\r' -> '&#13;'" % ent, ok,
+           "" if ok else "XMLWriter.text no longer escapes CR", node=tf)
+    xr = repo.mod("rdflib.plugins.sparql.results.xmlresults")
+    wb = xr.func("SPARQLXMLWriter.write_binding")
+    lit = [n for n in own_nodes(wb) if isinstance(n, ast.If) and "isinstance" in norm(n.test) and "Literal" in norm(n.test)]
+    if not lit:
+        raise AnalysisError("write_binding: literal branch not found")
+    body_consts = [c.value for s in lit[0].body for c in ast.walk(s) if isinstance(c, ast.Constant) and isinstance(c.value, str)]
+    raw = [c for s in lit[0].body for c in ast.walk(s) if isinstance(c, ast.Call) and isinstance(c.func, ast.Attribute) and c.func.attr == "characters"]
+    ok = "&#13;" in body_consts and "\r" in body_consts
+    rep.ob("C16.j-carriage-return-as-character-reference", xr, "SPARQLXMLWriter.write_binding", raw[0] if raw else "literal text written", ok,
+           "CR is split off and written as &#13;" if ok else
+           "the literal's text goes to XMLGenerator.characters() with its carriage returns raw: Literal('x\\ry') is read back as Literal('x\\ny') by every conforming XML parser", node=raw[0] if raw else lit[0])
